@@ -355,3 +355,30 @@ M("c17-async-init-zero", ["C17"], CDC, 'flops = [Signal(1, name=f"stage{index}",
 M("c17-async-neg-not-inverted", ["C17"], CDC, '            m.d.comb += ResetSignal("async_ff").eq(~self.i)', '            m.d.comb += ResetSignal("async_ff").eq(self.i)', "R-17b")
 M("c17-pulse-toggle-domain", ["C17"], CDC, 'm.d[self._i_domain] += i_toggle.eq(i_toggle ^ self.i)', 'm.d[self._o_domain] += i_toggle.eq(i_toggle ^ self.i)', "R-17c")
 M("c17-pulse-stages-dropped", ["C17"], CDC, 'FFSynchronizer(i_toggle, o_toggle, o_domain=self._o_domain, stages=self._stages)', 'FFSynchronizer(i_toggle, o_toggle, o_domain=self._o_domain)', "R-17c")
+
+# ------------------------------------------------------------------------------------------------ C10 / C11
+MEMF = "amaranth/hdl/_mem.py"
+M("c10-signal-init-raw", ["C10"], AST, "        self._init = _get_init_value(init, unsigned(1) if orig_shape is None else orig_shape)", "        self._init = 0 if init is None else int(init)", "R-10a")
+M("c10-range-check-dropped", ["C10"], AST, "        if isinstance(orig_shape, range) and orig_init is not None and orig_init not in orig_shape:", "        if False:", "R-10a")
+M("c10-range-check-wrapped", ["C10"], AST, "        if isinstance(orig_shape, range) and orig_init is not None and orig_init not in orig_shape:",
+  "        if isinstance(orig_shape, range) and orig_init is not None and Const(init.value, shape).value not in orig_shape:", "R-10a")
+M("c10-range-sign-one-end", ["C10"], AST, "                signed = obj[0] < 0 or obj[-1] < 0", "                signed = obj[0] < 0", "R-10c")
+M("c10-range-width-one-end", ["C10"], AST, "                width  = max(bits_for(obj[0], signed),\n                             bits_for(obj[-1], signed))", "                width  = bits_for(obj[-1], signed)", "R-10c")
+M("c10-const-wrap-bit", ["C10"], AST, "        if shape.signed and value >> (shape.width - 1) & 1:", "        if shape.signed and value >> shape.width & 1:", "R-10d")
+M("c10-const-cast-concat-signed-part", ["C10"], AST, "                part_value = Const(const.value, unsigned(len(const))).value", "                part_value = const.value", "R-10b")
+M("c10-const-cast-slice-no-shift", ["C10"], AST, "            return Const(value.value >> obj.start, unsigned(obj.stop - obj.start))", "            return Const(value.value, unsigned(obj.stop - obj.start))", "R-10b")
+M("c10-mem-slice-direct-store", ["C10"], MEMF, "                for actual_index, actual_value in zip(indices, value):\n                    self[actual_index] = actual_value",
+  "                for actual_index, actual_value in zip(indices, value):\n                    self._elems[actual_index] = actual_value", "R-10a")
+M("c10-enum-unify-case", ["C10"], AST, "                width  = max(width, member_shape.width + 1)", "                width  = max(width, member_shape.width)", "R-10c")
+M("c11-write-loop-filtered", ["C11"], PYRTL, "                    for idx, port in enumerate(fragment._write_ports):\n                        if port._domain != domain_name:\n                            continue\n",
+  "                    for idx, port in enumerate(p for p in fragment._write_ports if p._domain == domain_name):\n", "R-11b")
+M("c11-patch-before-read", ["C11"], PYRTL, "                            data = emitter.def_var(\"read_data\", f\"slots[{memory_index}].read({addr})\")\n\n                            for idx in port._transparent_for:",
+  "                            data = \"read_data_x\"\n                            for idx in port._transparent_for:", "R-11b")
+M("c11-patch-wrong-polarity", ["C11"], PYRTL, '                                    emitter.append(f"{data} |= {wdata} & {wen}")', '                                    emitter.append(f"{data} |= {wdata} & ~{wen}")', "R-11b")
+M("c11-write-bounds-dropped", ["C11"], PYSIM, "    def write(self, addr, value, mask=None):\n        if addr in range(self.memory.depth):", "    def write(self, addr, value, mask=None):\n        if True:", "R-11a")
+M("c11-write-direct-data", ["C11", "C08"], PYSIM, "            self.write_queue[addr] = value\n            self.pending.add(self)", "            self.data[addr] = value\n            self.pending.add(self)", ["R-11a", "R-08a"])
+M("c11-lib-transparent-unmapped", ["C11"], "amaranth/lib/memory.py", "            transparent_for = tuple(write_ports[write_port] for write_port in port.transparent_for)",
+  "            transparent_for = tuple(range(len(port.transparent_for)))", "R-11d")
+M("c11-read-addr-unmasked", ["C11"], PYRTL, '                            addr = emitter.def_var("read_addr", f"({(1 << len(port._addr)) - 1:#x} & {addr})")', '                            addr = emitter.def_var("read_addr", f"{addr}")', "R-11c")
+M("c11-read-no-enable", ["C11"], PYRTL, '                        emitter.append(f"if {en}:")\n                        with emitter.indent():\n                            addr = rhs(port._addr)\n                            addr = emitter.def_var("read_addr"',
+  '                        emitter.append(f"if True:")\n                        with emitter.indent():\n                            addr = rhs(port._addr)\n                            addr = emitter.def_var("read_addr"', "R-11b")
